@@ -57,6 +57,16 @@ requested binning; the cache before the measured build is compared with the mode
 catalog used WITHOUT binning has a history of its own (it served as a binned sample before) and must report the patch total in
 every bin.  Redshifts are drawn from the edges / midpoints / outside values of the requested binning and of the binnings of
 the history, i.e. where the binnings of one history disagree.
+Extreme but legal sizes of the binning ('large' family): 1, 2, 3 bins, bin counts around 2^7, 2^8, 2^15 and 2^16 (the widths of the
+integer types a bin index fits into), thousands and up to 10^5 bins; custom edge arrays and generated ones (zmin / zmax / num_bins,
+linear); very narrow bins (2^-20) next to very wide ones (several units); objects in the first and the LAST bins, in the bins whose
+index is around those powers of two, on their edges and midpoints, on the open outer edge and outside; one to three patches, with
+and without weights, both closed sides; trees, histogram and (angular scales, so that no cosmology is evaluated per bin) the
+measurement's sum_weights, serial and on the worker / pickling pools.  The edges are described as (lo, [(step, count)]) and built
+inside Coq (seg_edges: C10_seg_edges_valid), the observations are handed over sparsely (number of bins reported + the bins that are
+not empty) and compared in Coq (c10_big_case) with the model of build_trees (np.digitize evaluated by skipping chunks of edges:
+C10_chunked_digitize) and with the closed-side rule evaluated directly on the listed bins; C10_big_case_sound: code 0 means that
+ALL bins, listed or not, hold what the rule says.
 """
 import copy
 import itertools
@@ -84,6 +94,11 @@ TRUSTED = [
     "yaw.catalog.trees.build_trees, which BinnedTrees.build calls between removing the patch's binning file and writing the new trees, "
     "is replaced for that step by a wrapper that raises a BaseException at the (fuel+1)-th call (serial builds only); a process "
     "killed at another instruction of BinnedTrees.build is not reproduced (C07 / C18 territory)",
+    "large family: the per-bin observations (up to 10^5 trees / histogram entries / rows of sum_weights) are re-encoded by the harness as "
+    "(number of entries, [(index, value) for the entries that are not (0, 0.0) resp. 0.0]) before they are handed to Coq (sparse_of); "
+    "the float64 edge array handed to yaw is computed with exact integer arithmetic in units of 2^-20 and is the array seg_edges builds in Coq "
+    "(same lo, steps and counts; every value is checked to be exactly representable); python-side expected values (expected_sparse) "
+    "only word the report of a failure (which bins, which kind), the verdict is the Coq code",
 ]
 ASSUMPTIONS = [
     "redshifts, edges and weights are dyadic rationals with few bits, so every float64 sum is exact and is compared with Qeq_bool",
@@ -99,6 +114,9 @@ ASSUMPTIONS = [
     "c10_cache_case, evaluated in Coq; otherwise the pinned commit stops at c10-empty-patch-unboundlocal); the steps of a history "
     "run serially, the measured build also on worker processes; Catalog.build_trees visits the patches in the order of their ids "
     "(the model of an interrupted build; checked through the observed cache before the measured build, flag 5)",
+    "large family: for generated edges (zmin, zmax, num_bins, method linear) the case is evaluated when the edge array the implementation "
+    "reports equals the exact linear edges lo + k * step (step a power of two); otherwise it is counted and skipped, and more than 20% "
+    "skipped cases break an obligation; the measurement uses angular scales (unit arcmin), the per-bin sum_weights do not depend on the scales",
 ]
 RULE = ("cases = (closed side, weight column present, edges, per-patch lists of (redshift, weight), consumers observed, "
         "where the work is done: serial / real worker processes / pickling pool / transported binning); "
@@ -112,7 +130,10 @@ RULE = ("cases = (closed side, weight column present, edges, per-patch lists of 
         "(per-patch builds on listed patches | catalog-wide build | build interrupted after k rebuilds, via build_trees / autocorrelate, "
         "force, binning), measured through build_trees(force) / autocorrelate / crosscorrelate, history of the unbinned catalog, where the "
         "work is done), one evaluation per catalog; non-trivial when, before the measured build, the patches of the catalog do not all "
-        "hold trees for the requested binning (another binning, different binnings, or no trees in some patch)")
+        "hold trees for the requested binning (another binning, different binnings, or no trees in some patch); "
+        "large cases = (closed side, weight column, lo, segments (step, count) of the edge array, custom / generated edges, per-patch "
+        "(redshift, weight) lists, consumers observed, where the work is done); non-trivial when a redshift lies on a bin edge or outside "
+        "the binning, or an object lies in a bin whose index is >= 127")
 
 HEADER = "From Verif Require Import Prelude Binning.\nOpen Scope Q_scope.\n"
 
@@ -1526,6 +1547,482 @@ def run_history_family(ctx, specs, name="History_C10"):
     return codes
 
 
+# ---------------------------------------------------------------- extreme sizes of the binning ('large' family)
+UNIT_BITS = 20                           # every edge of the family is an integer multiple of 2^-20 (midpoints: 2^-21, exact in float64)
+POW2 = [7, 8, 15, 16]                    # bin counts / bin indices around 2^k: the widths of the integer types an index fits into
+STEPS_NARROW = [2.0 ** -20, 2.0 ** -16, 2.0 ** -12, 2.0 ** -10]
+STEPS_WIDE = [0.5, 1.0, 4.0, 8.0]
+
+
+def _units(x):
+    v = x * 2.0 ** UNIT_BITS
+    assert v == int(v) and abs(v) < 2 ** 62, "not a multiple of 2^-%d: %r" % (UNIT_BITS, x)
+    return int(v)
+
+
+def seg_edges_np(lo, segs):
+    """the float64 edge array lo, lo + step, ... (per segment `count` further edges), computed exactly"""
+    parts = [np.asarray([_units(lo)], dtype=np.int64)]
+    start = _units(lo)
+    for step, n in segs:
+        st = _units(step)
+        assert st > 0 and n > 0
+        parts.append(start + st * np.arange(1, n + 1, dtype=np.int64))
+        start += st * n
+    ints = np.concatenate(parts)
+    assert int(ints[-1]) < 2 ** 52 and int(ints[0]) > -2 ** 52
+    edges = ints.astype(np.float64) / 2.0 ** UNIT_BITS
+    assert np.all(np.diff(edges) > 0)
+    return edges
+
+
+def interesting_bins(rng, nb, segs):
+    """first / last bins, bins around index 2^k - 1 and 2^k, the bins next to a change of width, some others"""
+    out = {0, 1, nb // 2, nb - 2, nb - 1}
+    for k in POW2:
+        out.update(range(2 ** k - 3, 2 ** k + 2))
+    pos = 0
+    for _, n in segs[:-1]:
+        pos += n
+        out.update((pos - 1, pos, pos + 1))
+    out.update(rng.randrange(nb) for _ in range(3))
+    return sorted(b for b in out if 0 <= b < nb)
+
+
+def large_objects(rng, closed, edges, segs, hasw, P, emptypatch=None, nmax=10):
+    nb = len(edges) - 1
+    ib = interesting_bins(rng, nb, segs)
+    high = [b for b in ib if b >= 126] or ib
+    last = [b for b in ib if b >= nb - 2]
+    outs = [float(edges[0]) - 0.125, float(edges[-1]) + 0.25, float(edges[-1]) + 1.0,
+            float(edges[0] if closed == "right" else edges[-1])]
+    patches = []
+    for p in range(P):
+        zs = []
+        for _ in range(rng.randrange(3, nmax + 1)):
+            r = rng.random()
+            if p == emptypatch or r < 0.15:
+                zs.append(rng.choice(outs))
+                continue
+            b = rng.choice(last) if r < 0.4 else rng.choice(high) if r < 0.7 else rng.choice(ib) if r < 0.9 else rng.randrange(nb)
+            lo, hi = float(edges[b]), float(edges[b + 1])
+            zs.append(rng.choice([lo, hi, hi if closed == "right" else lo, (lo + hi) / 2.0]))
+        if p != emptypatch and not any(edges[0] < z < edges[-1] for z in zs):
+            zs.append(float(edges[-2] + edges[-1]) / 2.0)
+        patches.append([(z, rng.randrange(1, 41) / 8.0 if hasw else 1.0) for z in zs])
+    return patches
+
+
+def random_layout(rng, nb):
+    """(lo, segments): one linear segment, or 2-4 segments whose widths differ by factors of 2^9 .. 2^23"""
+    lo = rng.choice([0.0, 0.25, 0.5, 1.0])
+    if nb == 1 or rng.random() < 0.45:
+        return lo, [(rng.choice(STEPS_NARROW + [2.0 ** -6, 0.25]), nb)]
+    k = min(nb, rng.choice([2, 2, 3, 4]))
+    cuts = sorted(rng.sample(range(1, nb), k - 1)) if nb > 2 else [1]
+    wide_first = rng.random() < 0.5
+    if rng.random() < 0.5 and nb > 3:       # a single very wide bin somewhere, also as the last or the first but one
+        c = rng.choice([1, nb - 2, rng.randrange(1, nb - 1)])
+        cuts = sorted({c, c + 1})
+        wide_first = False
+    counts = [b - a for a, b in zip([0] + cuts, cuts + [nb])]
+    segs = []
+    for j, n in enumerate(counts):
+        wide = (j % 2 == 0) == wide_first and n <= 64
+        segs.append((rng.choice(STEPS_WIDE) if wide else rng.choice(STEPS_NARROW), n))
+    return lo, segs
+
+
+def random_nbins(rng, quick):
+    r = rng.random()
+    if r < 0.15:
+        return rng.choice([1, 1, 2, 2, 3])
+    if r < 0.35:
+        return 2 ** rng.choice([7, 8]) + rng.randrange(-2, 4)
+    if r < 0.55:
+        return rng.randrange(1000, 5001)
+    if r < 0.75:
+        return 2 ** 15 + rng.randrange(-2, 4)
+    if r < 0.85:
+        return 2 ** 16 + rng.randrange(-2, 4)
+    return rng.choice([40000, 50000, 100000]) if quick else rng.randrange(33000, 100001)
+
+
+def random_large_spec(rng, quick=True, meas_limit=5000):
+    nb = random_nbins(rng, quick)
+    lo, segs = random_layout(rng, nb)
+    closed = rng.choice(["left", "right"])
+    hasw = rng.random() < 0.5
+    P = rng.choice([1, 1, 2, 2, 3])
+    edges = seg_edges_np(lo, segs)
+    emptypatch = rng.randrange(P) if rng.random() < 0.1 else None
+    generated = len(segs) == 1 and rng.random() < 0.5
+    cfg = "generated" if generated else rng.choice(["binning", "configuration"])
+    meas = rng.choice([None, "auto", "auto", "cross"]) if nb <= meas_limit and (nb <= 5000 or rng.random() < 0.15) else None
+    spec = dict(tag="large:%s:%s" % ("linear" if len(segs) == 1 else "narrow-wide", cfg), family="large", closed=closed, hasw=hasw,
+                lo=lo, segs=[(st, n) for st, n in segs], patches=large_objects(rng, closed, edges, segs, hasw, P, emptypatch),
+                meas=meas, cfg=cfg)
+    r = rng.random()
+    if r < 0.12:
+        spec.update(tag=spec["tag"] + ":pickling", pool="pickling", workers=rng.choice([2, 3]), order_seed=rng.randrange(10 ** 6))
+    elif r < 0.2:
+        spec.update(tag=spec["tag"] + ":real", pool="real", workers=2)
+    return spec
+
+
+def large_probe_specs(quick=True):
+    """deterministic: for each closed side 1 bin; 2 bins (2^-20 next to 8); 2^7 + 3 and 2^8 + 3 bins with a measurement; 2^15 + 3 bins
+    with a measurement over one patch; 2^16 + 3 generated bins; 10^5 bins, a bin of width 4 in the middle and one as the last bin but
+    one; every probe holds objects on both edges and the midpoint of the last two bins, of the bins around index 2^k - 1 / 2^k, of the
+    first bin, on the open outer edge and outside"""
+    out = []
+    for closed in ("left", "right"):
+        def objs(lo, segs, P, hasw, bins=None):
+            edges = seg_edges_np(lo, segs)
+            nb = len(edges) - 1
+            bins = [b for b in (bins or interesting_bins(_NoRandom(), nb, segs)) if 0 <= b < nb]
+            vals = []
+            for b in bins:
+                vals += [float(edges[b]), float(edges[b + 1]), float(edges[b] + edges[b + 1]) / 2.0]
+            vals += [float(edges[0]) - 0.125, float(edges[-1]) + 0.25]
+            vals = sorted(set(vals))
+            patches = [[] for _ in range(P)]
+            for j, z in enumerate(vals):
+                patches[j % P].append((z, (2.0 ** (j % 7)) / 8.0 if hasw else 1.0))
+            return patches
+        probes = [
+            ("1bin", 0.5, [(0.5, 1)], 1, True, "auto", "binning", {}),
+            ("2bins-narrow-wide", 0.25, [(2.0 ** -20, 1), (8.0, 1)], 2, False, "cross", "configuration", {}),
+            ("2^7+3", 0.0, [(2.0 ** -10, 2 ** 7 + 3)], 2, True, "auto", "generated", dict(pool="pickling", workers=2, order_seed=3)),
+            ("2^8+3", 0.25, [(2.0 ** -12, 200), (4.0, 1), (2.0 ** -12, 2 ** 8 + 2 - 200)], 3, True, "auto", "binning", {}),
+            ("2^15+3", 0.0, [(2.0 ** -10, 2 ** 15 + 3)], 1, True, "auto", "configuration", {}),
+            ("2^16+3-generated", 0.25, [(2.0 ** -12, 2 ** 16 + 3)], 2, False, None, "generated", dict(pool="real", workers=2)),
+            ("10^5-narrow-wide", 0.5, [(2.0 ** -16, 50000), (4.0, 1), (2.0 ** -16, 49997), (4.0, 1), (2.0 ** -20, 1)], 2, True, None,
+             "binning", {}),
+        ]
+        for name, lo, segs, P, hasw, meas, cfg, fl in probes:
+            nb = sum(n for _, n in segs)
+            if meas and nb > 2 ** 15 + 3 and quick:
+                meas = None
+            out.append(dict(tag="large:probe:%s:%s" % (name, closed), family="large", closed=closed, hasw=hasw, lo=lo, segs=segs,
+                            patches=objs(lo, segs, P, hasw), meas=meas, cfg=cfg, **fl))
+    return out
+
+
+class _NoRandom:
+    """interesting_bins without its random extras"""
+
+    @staticmethod
+    def randrange(n):
+        return 0
+
+
+def large_specs(ctx):
+    quick = ctx.quick()
+    out = large_probe_specs(quick)
+    for _ in range(ctx.n(22, 160)):
+        out.append(random_large_spec(ctx.rng, quick, meas_limit=5000 if quick else 40000))
+    return out
+
+
+def sparse_of(values, empty):
+    """(number of entries, [(index, value) for the entries that differ from `empty`])"""
+    return [len(values), [(i, v) for i, v in enumerate(values) if v != empty]]
+
+
+def sparse_np(arr):
+    arr = np.asarray(arr, dtype="f8")
+    if not np.all(np.isfinite(arr)):
+        raise ValueError("non-finite per-bin value")
+    nz = np.flatnonzero(arr != 0.0)
+    return [int(len(arr)), [(int(i), float(arr[i])) for i in nz]]
+
+
+def observe_large(ctx, spec, idx):
+    """returns dict(nbins, trees=[per patch sparse (n, w) or None], hist=sparse or None, meas=[per patch sparse column] or None,
+    errors, skipped=reason or None)"""
+    import yaw
+    from yaw.catalog.trees import BinnedTrees
+    from yaw.config import BinningConfig
+    from yaw.redshifts import HistData
+
+    impl.set_threads(1)
+    closed, hasw = spec["closed"], spec["hasw"]
+    edges = seg_edges_np(spec["lo"], spec["segs"])
+    nb = len(edges) - 1
+    W = int(spec.get("workers") or 1)
+    P = len(spec["patches"])
+    cols = make_frames(spec)
+    kw = dict(ra_name="ra", dec_name="dec", patch_name="pid", max_workers=1)
+    if hasw:
+        kw["weight_name"] = "w"
+    cache = impl.fresh_dir(ctx, "bcat_%d" % idx)
+    cache_u = None
+    errors = {}
+    obs = dict(nbins=nb, trees=None, hist=None, meas=None, errors=errors, skipped=None)
+    scales = dict(rmin=1.0, rmax=10.0, unit="arcmin")
+    old = np.seterr(invalid="ignore", divide="ignore")
+    try:
+        if spec["cfg"] == "generated":      # zmin / zmax / num_bins: the implementation generates the (linear) edges
+            gen = dict(zmin=float(edges[0]), zmax=float(edges[-1]), num_bins=nb, method="linear", closed=closed)
+            bconf = BinningConfig.create(**gen)
+            conf = impl.Configuration.create(max_workers=W, **scales, **gen)
+            for c in (bconf, conf):
+                got = np.asarray(binning_of(c).edges, dtype="f8")
+                if got.shape != edges.shape or not np.array_equal(got, edges):
+                    obs["skipped"] = "generated edges differ from lo + k * step"
+                    return obs
+            use_edges = np.asarray(bconf.edges, dtype="f8")
+            hconf = bconf if idx % 2 else conf
+        else:
+            use_edges = edges
+            bconf = BinningConfig.create(edges=edges, closed=closed)
+            conf = impl.Configuration.create(max_workers=W, edges=edges, closed=closed, **scales)
+            hconf = bconf if spec["cfg"] == "binning" else conf
+        cat = impl.Catalog.from_dataframe(cache, impl.make_df(cols), redshift_name="z", **kw)
+        assert sorted(int(k) for k in cat.keys()) == list(range(P)), "patch ids"
+        whole = None
+        with pool_flavour(spec):
+            try:
+                cat.build_trees(use_edges, closed=closed, max_workers=W)
+            except Exception as e:  # noqa: BLE001 - zeros are required, not an error
+                whole = e
+                errors["build_trees"] = "%s: %s" % (type(e).__name__, e)
+        trees = []
+        for p in range(P):
+            if whole is not None:
+                try:
+                    BinnedTrees.build(cat[p], binning_of(bconf), force=True)
+                except Exception as e:  # noqa: BLE001
+                    errors["build_trees[patch %d]" % p] = "%s: %s" % (type(e).__name__, e)
+                    trees.append(None)
+                    continue
+            try:
+                trees.append(sparse_of([(int(t.num_records), float(t.sum_weights)) for t in BinnedTrees(cat[p])], (0, 0.0)))
+            except Exception as e:  # noqa: BLE001
+                errors["read_trees[patch %d]" % p] = "%s: %s" % (type(e).__name__, e)
+                trees.append(None)
+        obs["trees"] = trees
+        with pool_flavour(spec):
+            try:
+                obs["hist"] = sparse_np(HistData.from_catalog(cat, hconf, max_workers=W).data)
+            except Exception as e:  # noqa: BLE001
+                errors["hist"] = "%s: %s" % (type(e).__name__, e)
+            if spec["meas"] and whole is None:
+                try:
+                    if spec["meas"] == "auto":
+                        sw = yaw.autocorrelate(conf, cat, cat, count_rr=False, max_workers=W)[0].dd.sum_weights
+                        if not np.array_equal(sw.sum_weights1, sw.sum_weights2):
+                            errors["meas"] = "autocorrelation: sum_weights1 != sum_weights2"
+                    else:
+                        cache_u = impl.fresh_dir(ctx, "bcatu_%d" % idx)
+                        cat_u = impl.Catalog.from_dataframe(cache_u, impl.make_df(cols), **kw)
+                        sw = yaw.crosscorrelate(conf, cat, cat_u, unk_rand=cat_u, max_workers=W)[0].dd.sum_weights
+                    mat = np.asarray(sw.sum_weights1, dtype="f8")
+                    if mat.shape != (nb, P):
+                        errors["meas"] = "sum_weights1 has shape %s, expected (%d, %d)" % (mat.shape, nb, P)
+                    else:
+                        obs["meas"] = [sparse_np(mat[:, p]) for p in range(P)]
+                except Exception as e:  # noqa: BLE001
+                    errors["meas"] = "%s: %s" % (type(e).__name__, e)
+        return obs
+    finally:
+        np.seterr(**old)
+        impl.set_threads(1)
+        shutil.rmtree(cache, ignore_errors=True)
+        if cache_u:
+            shutil.rmtree(cache_u, ignore_errors=True)
+
+
+def zlit(n):
+    return "(%d)%%Z" % int(n)
+
+
+def large_term(spec, obs):
+    segs = fq.lst(["(%s, N.to_nat %d)" % (fq.q(st), n) for st, n in spec["segs"]])
+    patches = fq.lst([fq.lst([fq.pair(fq.q(z), fq.q(w)) for z, w in objs]) for objs in spec["patches"]])
+    stree = lambda o: fq.pair(zlit(o[0]), fq.lst([fq.pair(zlit(b), fq.pair(fq.nat(v[0]), fq.q(v[1]))) for b, v in o[1]]))  # noqa: E731
+    swsum = lambda o: fq.pair(zlit(o[0]), fq.lst([fq.pair(zlit(b), fq.q(v)) for b, v in o[1]]))  # noqa: E731
+    return "c10_big_case %s %s %s %s %s %s %s %s %s" % (
+        fq.b(spec["closed"] == "right"), fq.b(spec["hasw"]), fq.q(spec["lo"]), segs, zlit(obs["nbins"]), patches,
+        fq.lst([fq.opt(t, stree) for t in obs["trees"]]), fq.opt(obs["hist"], swsum),
+        fq.opt(obs["meas"], lambda m: fq.lst([swsum(o) for o in m])))
+
+
+def expected_sparse(spec, objs):
+    """bin -> [count, weight sum] by the python-side rule (np.searchsorted on the exact float edges): wording of reports and
+    labels only, never a verdict"""
+    edges = seg_edges_np(spec["lo"], spec["segs"])
+    nb = len(edges) - 1
+    out = {}
+    for z, w in objs:
+        b = int(np.searchsorted(edges, z, side="left" if spec["closed"] == "right" else "right")) - 1
+        if 0 <= b < nb:
+            e = out.setdefault(b, [0, 0.0])
+            e[0] += 1
+            e[1] += w if spec["hasw"] else 1.0
+    return out
+
+
+def index_class(b):
+    for k in POW2:
+        if b < 2 ** k - 1:
+            return "bin-index-below-2^%d-1" % k
+    return "bin-index-from-2^16-1"
+
+
+def sparse_diff(want, got, weights_only=False):
+    """(kind, first wrong bin) between the python-side expectation {bin: [n, w]} and a sparse observation"""
+    if got is None:
+        return "not-reported", None
+    have = {b: v for b, v in got[1]}
+    pick = (lambda e: e[1]) if weights_only else (lambda e: (e[0], e[1]))
+    lost = sorted(b for b in want if b not in have)
+    extra = sorted(b for b in have if b not in want)
+    wrong = sorted(b for b in want if b in have and pick(want[b]) != (have[b] if weights_only else tuple(have[b])))
+    if lost:
+        return "populated-bin-reported-empty", lost[0]
+    if extra:
+        return "empty-bin-reported-populated", extra[0]
+    if wrong:
+        return "wrong-count-or-sum", wrong[0]
+    return "number-of-bins", None
+
+
+def label_large(ctx, spec, obs):
+    edges = seg_edges_np(spec["lo"], spec["segs"])
+    nb = len(edges) - 1
+    zs = np.asarray([z for objs in spec["patches"] for z, _ in objs], dtype="f8")
+    on_edge = bool(np.any(np.isin(zs, edges)))
+    exp = expected_sparse(spec, [o for objs in spec["patches"] for o in objs])
+    outside = sum(e[0] for e in exp.values()) < len(zs)
+    top = max(exp) if exp else -1
+    widths = [st for st, _ in spec["segs"]]
+    info = dict(nbins=nb, z_on_edge=on_edge, z_outside=outside, highest_populated_bin=top, last_bin_populated=(nb - 1) in exp,
+                width_ratio=max(widths) / min(widths))
+    ctx.bump("large:nbins:%s" % ("1-3" if nb <= 3 else "around-2^7/2^8" if nb < 1000 else "thousands" if nb < 2 ** 15 - 2 else
+                                 "around-2^15" if nb <= 2 ** 15 + 3 else "around-2^16" if 2 ** 16 - 2 <= nb <= 2 ** 16 + 3 else "4*10^4..10^5"))
+    ctx.bump("large:edges:%s" % ("generated" if spec["cfg"] == "generated" else "custom"))
+    if len(spec["segs"]) > 1:
+        ctx.bump("large:narrow-next-to-wide:ratio>=2^%d" % int(np.log2(info["width_ratio"])))
+    for k in POW2:
+        if any(b >= 2 ** k - 1 for b in exp):
+            ctx.bump("large:populated-bin-index>=2^%d-1" % k)
+    for name, flag in (("last_bin_populated", info["last_bin_populated"]), ("z_on_edge", on_edge), ("z_outside_binning", outside),
+                       ("patch_without_inside_object", any(not expected_sparse(spec, objs) for objs in spec["patches"]))):
+        if flag:
+            ctx.bump("large:" + name)
+    if spec["meas"]:
+        ctx.bump("large:measurement:" + spec["meas"])
+    how = flavour_of(spec)
+    key = ("large", spec["closed"], spec["hasw"], spec["lo"], tuple(tuple(x) for x in spec["segs"]), spec["cfg"],
+           tuple(tuple(o) for objs in spec["patches"] for o in objs + [("|", 0)]), spec["meas"], how, spec.get("workers"))
+    ctx.count(key=key, nontrivial=on_edge or outside or top >= 127,
+              kind="large/%s/%s/%s%s" % (spec["closed"], "weighted" if spec["hasw"] else "unweighted",
+                                         "generated" if spec["cfg"] == "generated" else "custom", "/" + how if how else ""))
+    return info
+
+
+def interpret_large(ctx, idx, spec, obs, info, c):
+    """bits (set = flag false): 1 trees = model, 2 trees = rule evaluated directly, 4 hist = model, 8 hist = rule, 16 measurement = model,
+    32 measurement = rule, 64 hypotheses"""
+    if c is None:
+        return
+    case = ("large", idx)
+    if c & 64:
+        ctx.obligation("generator:large case %d satisfies the theorems' hypotheses" % idx, False, repr(spec)[:2000])
+        return
+    how = flavour_of(spec)
+    how = ":" + how if how else ""
+    nb = obs["nbins"]
+    layout = "%d bins, lo %s, segments (step, count) %s, %s edges" % (nb, spec["lo"], spec["segs"], "generated" if spec["cfg"] == "generated" else "custom")
+    replay = dict(spec=spec, observed=obs, labels=info, code=c)
+    per_patch = [expected_sparse(spec, objs) for objs in spec["patches"]]
+    for pair, what in (((1, 2), "trees"), ((4, 8), "histogram"), ((16, 32), "measurement")):
+        if bool(c & pair[0]) != bool(c & pair[1]):
+            ctx.obligation("large case %d: the proved model and the directly evaluated rule give the same verdict on the %s" % (idx, what),
+                           False, "code %d; %s" % (c, repr(spec)[:1500]))
+    if c & 1:
+        ctx.disagree("Large_C10", case, dict(code=c, spec=spec, observed=obs))
+        tree_errs = {v.split(":")[0] for k, v in obs["errors"].items() if k.startswith(("build_trees", "read_trees"))}
+        if tree_errs:
+            ctx.fail("c10-build-trees-raises:%s:large-binning%s" % ("+".join(sorted(tree_errs)), how),
+                     "building / reading the trees raised with %s (closed=%s) where per-bin trees, empty ones for bins without objects, "
+                     "are required: %s" % (layout, spec["closed"], obs["errors"]), replay, case=case)
+        else:
+            kind, p, b = "number-of-bins", 0, None
+            for q_, (want, got) in enumerate(zip(per_patch, obs["trees"])):
+                k_, b_ = sparse_diff(want, got)
+                if b_ is not None or (got is not None and got[0] != nb):
+                    kind, p, b = k_, q_, b_
+                    break
+            ctx.fail("c10-trees-membership:large-binning:%s%s%s" % (kind, ":" + index_class(b) if b is not None else "", how),
+                     "BinnedTrees per-bin num_records / sum_weights differ from the closed-%s rule%s with %s: patch %d, first deviating bin %s "
+                     "(edges %s); by the rule the populated bins are {bin: [count, sum]} %s, reported (number of trees, [(bin, (count, sum))]) %s; "
+                     "objects %s" % (spec["closed"], where_text(spec), layout, p, b,
+                                     None if b is None else [float(x) for x in seg_edges_np(spec["lo"], spec["segs"])[b:b + 2]],
+                                     per_patch[p], obs["trees"][p], spec["patches"][p]), replay, case=case)
+    if c & 4:
+        if obs["hist"] is None:
+            ctx.fail("c10-hist-raises:%s:large-binning%s" % (obs["errors"].get("hist", "?").split(":")[0], how),
+                     "HistData.from_catalog raised with %s: %s" % (layout, obs["errors"].get("hist")), replay, case=case)
+        else:
+            want = expected_sparse(spec, [o for objs in spec["patches"] for o in objs])
+            kind, b = sparse_diff(want, obs["hist"], weights_only=True)
+            ctx.fail("c10-hist-membership:large-binning:%s%s%s" % (kind, ":" + index_class(b) if b is not None else "", how),
+                     "HistData.from_catalog(...).data differs from the closed-%s rule%s with %s: first deviating bin %s; by the rule "
+                     "{bin: [count, sum]} %s, reported (number of bins, [(bin, sum)]) %s; objects %s" % (
+                         spec["closed"], where_text(spec), layout, b, want, obs["hist"], spec["patches"]), replay, case=case)
+    if c & 16 or "meas" in obs["errors"]:
+        kind, p, b = "not-obtained", 0, None
+        for q_, (want, got) in enumerate(zip(per_patch, obs["meas"] or [])):
+            k_, b_ = sparse_diff(want, got, weights_only=True)
+            if b_ is not None or got[0] != nb:
+                kind, p, b = k_, q_, b_
+                break
+        ctx.fail("c10-measurement-sum-weights:large-binning:%s%s%s" % (kind, ":" + index_class(b) if b is not None else "", how),
+                 "%scorrelate with %s (closed=%s)%s: dd.sum_weights.sum_weights1 differs from the closed-side rule or could not be obtained (%s): "
+                 "patch %d, first deviating bin %s; by the rule {bin: [count, sum]} %s, reported column (number of bins, [(bin, sum)]) %s; objects %s" % (
+                     spec["meas"], layout, spec["closed"], where_text(spec), obs["errors"].get("meas"), p, b, per_patch[p],
+                     (obs["meas"] or [None] * (p + 1))[p], spec["patches"][p]), replay, case=case)
+
+
+def run_large(ctx, specs, name="Large_C10"):
+    terms, kept = [], []
+    skipped = generated = 0
+    for idx, spec in enumerate(specs):
+        generated += spec["cfg"] == "generated"
+        try:
+            obs = observe_large(ctx, spec, idx)
+        except Exception as e:  # creating the configuration / the catalog of a valid input must not raise
+            ctx.fail("c10-harness-or-creation-raises:%s:large-binning" % type(e).__name__,
+                     "creating the configuration or the catalog for a binning with %d bins raised %s: %s" % (
+                         sum(n for _, n in spec["segs"]), type(e).__name__, e),
+                     dict(spec=spec, traceback=traceback.format_exc()[-1500:]), case=("large", idx))
+            continue
+        if obs["skipped"]:
+            skipped += 1
+            ctx.bump("large:skipped:" + obs["skipped"])
+            continue
+        info = label_large(ctx, spec, obs)
+        ctx.sample(dict(spec=spec, observed=obs), limit=3)
+        terms.append(large_term(spec, obs))
+        kept.append((idx, spec, obs, info))
+    ctx.obligation("generator:large generated (linear) edges equal lo + k * step (%d of %d differ)" % (skipped, generated),
+                   skipped * 5 <= max(generated, 1), "skipped: %d" % skipped)
+    ctx.log("%d cases with extreme binnings observed, evaluating in Coq" % len(terms))
+    if not terms:
+        return []
+    codes = ctx.shards(name, HEADER, terms, shard=4)
+    hyp_ok = sum(1 for c in codes if c is not None and not (c & 64))
+    ctx.extra["hypotheses_checked_large"] = {
+        "segments with positive steps and counts, as many bins as configured (flag 6 of c10_big_case; C10_seg_edges_valid: such edges are "
+        "strictly increasing)": "%d/%d" % (hyp_ok, len(codes))}
+    for (idx, spec, obs, info), c in zip(kept, codes):
+        interpret_large(ctx, idx, spec, obs, info, c)
+    return codes
+
+
 # ---------------------------------------------------------------- transports: what arrives is what was sent
 def make_obj(objtype, closed, edges):
     from yaw.binning import Binning
@@ -1669,6 +2166,7 @@ def run(ctx):
     run_specs(ctx, specs)
     run_linked(ctx, linked_specs(ctx))
     run_history_family(ctx, history_specs(ctx))
+    run_large(ctx, large_specs(ctx))
     eval_transports(ctx, transport_records(ctx))
 
 
@@ -1693,6 +2191,11 @@ def replay(ctx, body):
     if spec.get("family") == "history":
         spec["patches"] = [[tuple(o) for o in objs] for objs in spec["patches"]]
         run_history_family(ctx, [spec], name="ReplayHistory_C10")
+        return
+    if spec.get("family") == "large":
+        spec["patches"] = [[tuple(o) for o in objs] for objs in spec["patches"]]
+        spec["segs"] = [(float(st), int(n)) for st, n in spec["segs"]]
+        run_large(ctx, [spec], name="ReplayLarge_C10")
         return
     if spec.get("family") == "linked":
         for sample in spec["samples"].values():
